@@ -6,7 +6,7 @@ From Coq Require Import List NArith ZArith Bool Permutation.
 Import ListNotations.
 Require Import Verif.Lib.Wire Verif.Gen.Facts_C18 Verif.Model.C18.
 Require Import Verif.Proofs.C18_kahn Verif.Proofs.C18_build Verif.Proofs.C18 Verif.Proofs.C18_rep Verif.Proofs.C18_cycle.
-Require Import Verif.Proofs.C18_gen Verif.Proofs.C18_derivers Verif.Proofs.C18_wire Verif.Proofs.C18_args Verif.Proofs.C18_make.
+Require Import Verif.Proofs.C18_gen Verif.Proofs.C18_derivers Verif.Proofs.C18_wire Verif.Proofs.C18_args Verif.Proofs.C18_make Verif.Proofs.C18_e2e.
 
 (* the emission loop never runs out of fuel and never looks up a deleted node *)
 Theorem C18_sorted_total : forall s, sorted s <> Internal.
@@ -418,3 +418,41 @@ Theorem C18_wire_make_judged : forall k adds kw,
   let '(o, ev, mk) := make_obs s kw in judge_preds k adds o ev = Some true.
 Proof. exact wire_make_judged. Qed.
 Print Assumptions C18_wire_make_judged.
+
+(* =====================================================================
+   End-to-end compositions *)
+(* view derivers: add_view_deriver argument processing (regenerated) -> derivers.add -> sorted() (regenerated) ->
+   _apply_view_derivers (regenerated): whenever a view is derived, the sorted pipeline is accepted by the judge for the
+   declarations (under = after, over = before), mapped_view is innermost of it, and the view is wrapped by the two
+   fixed outer wrappers and then the sorted derivers, outermost first, the user's callable innermost *)
+Theorem C18_derivers_end_to_end : forall adds h,
+  gen_apply_view_derivers (fst (fold_left gen_deriver_step adds (default_derivers, []))) Base = inr h ->
+  exists ds,
+    gen_sorted (fst (fold_left gen_deriver_step adds (default_derivers, []))) = Sorted ds /\
+    judge cfg_derivers (decls_of cfg_derivers (deriver_ops adds)) (Sorted ds) = true /\
+    mapped_innermost (map fst ds) = true /\
+    let all := map (fun n => (n, 0%N)) dv_outer ++ ds in
+    h = wrap_right all Base /\
+    trace h = map (fun nf => Enter (fst nf)) all ++ [Call] ++ map (fun nf => Exit (fst nf)) (rev all).
+Proof. exact derivers_end_to_end. Qed.
+Print Assumptions C18_derivers_end_to_end.
+
+(* batches (one commit per look, statements inside config.include): the rule which add_tween statements take effect ... *)
+Theorem C18_batch_flush_spec : forall b x,
+  In (TAdd x) (flush b) <->
+  exists i, In (BAdd x i) b /\ (i = false \/ ~ exists y, In (BAdd y false) b /\ bname y = bname x).
+Proof. exact flush_spec. Qed.
+Print Assumptions C18_batch_flush_spec.
+
+(* ... and whatever takes effect, every look of the effective history is accepted by the history judge *)
+Theorem C18_batch_history_judged : forall ex l,
+  judge_history ex tweens_init_decls (effective [] l) (tweens_history (tweens_init ex) (effective [] l))
+  = map (fun _ => vbool true) (effective [] l).
+Proof. exact batch_history_judged. Qed.
+Print Assumptions C18_batch_history_judged.
+
+Theorem C18_selected_history_judged : forall ex (takes_effect : tevent -> bool) evs,
+  judge_history ex tweens_init_decls (filter takes_effect evs) (tweens_history (tweens_init ex) (filter takes_effect evs))
+  = map (fun _ => vbool true) (filter takes_effect evs).
+Proof. exact selected_history_judged. Qed.
+Print Assumptions C18_selected_history_judged.
